@@ -313,6 +313,19 @@ impl ClosestPeersIter {
         // peers to contact, see `num_waiting`).
         let mut result_counter = Some(0);
 
+        // Peers whose timeout elapsed no longer count towards the limit for the
+        // bounded parallelism. Mark them as unresponsive before evaluating the
+        // capacity, as the loop below may return before reaching them.
+        for peer in self.closest_peers.values_mut() {
+            if let PeerState::Waiting(timeout) = peer.state
+                && now >= timeout
+            {
+                debug_assert!(self.num_waiting > 0);
+                self.num_waiting -= 1;
+                peer.state = PeerState::Unresponsive
+            }
+        }
+
         // Check if the iterator is at capacity w.r.t. the allowed parallelism.
         let at_capacity = self.at_capacity();
 
